@@ -204,7 +204,7 @@ class Program:
         cg = self.callgraph()
         roots = set()
         for k, f in self.funcs.items():
-            if f.get('declfile') in self.headers and f.get('access', 'public') in ('public', 'none'):
+            if f.get('declfile') in self.headers and f.get('access') in (None, 'public', 'none'):
                 roots.add(k)
         seen = set(roots)
         st = list(roots)
